@@ -34,6 +34,17 @@ def build(features=None, name='flagged'):
         u.fn(FL, [FH, 'fn ' + m], props='C12 C04', group='impl_flagged', key='FlaggedStorage::' + m,
              rules=[('N8', r"<T as UnprotectedStorage<C>>::AccessMut<'_>", '&mut C')],
              hint_obligations=TRAIT(m, labels))
+    # the shared-access variant used by non-lending and parallel joins, under the N3 sequentialisation: `&self` -> `&mut self`, the
+    # channel cell's `get()` + `&mut *ptr` -> `get_mut()`, the inner storage's shared_get_mut -> its get_mut (same contract)
+    u.fn(FL, ['impl<C: Component, T: SharedGetMutStorage<C>> SharedGetMutStorage<C> for FlaggedStorage<C, T>', 'fn shared_get_mut'], ret='r',
+         props='C12 C13', impl_header='impl<C: Component, T: UnprotectedStorage<C>> FlaggedStorage<C, T>', key='FlaggedStorage::shared_get_mut', mut_self=True,
+         rules=[('N8', r"<T as UnprotectedStorage<C>>::AccessMut<'_>", '&mut C'),
+                ('N3', r'self\.channel\.get\(\)', 'self.channel.get_mut()'), ('N3', r'unsafe \{ &mut \*channel_ptr \}', 'channel_ptr'),
+                ('N3', r'self\.storage\.shared_get_mut\(id\)', 'self.storage.get_mut(id)')],
+         requires=[E('has', 'old(self).has(id)')],
+         ensures=[E('val', '*r == old(self).val(id) && final(self).val(id) == *final(r)', 'C04'),
+                  E('events', 'final(self).log() == old(self).log() + old(self).ev_get_mut(id) && final(self).emits() == old(self).emits()', 'C12 C13'),
+                  E('frame', '(forall|j: Index| #![trigger final(self).has(j)] final(self).has(j) == old(self).has(j)) && (forall|j: Index| #![trigger final(self).val(j)] j != id ==> final(self).val(j) == old(self).val(j))', 'C04')])
     # an override of the trait's default `drop` (absent on the pinned tree) would have to meet the trait's drop contract
     u.fn(FL, [FH, 'fn drop'], props='C12 C04 C05', group='impl_flagged', key='FlaggedStorage::drop', optional=True,
          hint_obligations=TRAIT('drop', [('gone', 'C04'), ('wf', 'C04'), ('frame', 'C04'), ('events', 'C12')]))
